@@ -378,6 +378,7 @@ func r3emVMPreconditions(c *Ctx) (pre []*r3emPrecond, other []string, reach []st
 }
 
 func ruleR3RunPreconditions(c *Ctx) []Obligation {
+	r2LoopCtx = c
 	roles := vmCompRoles(c)
 	a := r3emLinkAnchors(c)
 	comp := c.Pkg("homescript/compiler")
@@ -630,8 +631,12 @@ func ruleR3RunPreconditions(c *Ctx) []Obligation {
 				if e.K != evCall || e.Fn == nil || e.Deferred {
 					continue
 				}
-				if e.Fn == roles.insert {
-					if op, _, _, _, _ := roles.instrOf(gfn, p.ev, j, e.Call.Args[0]); op != labelOp {
+				if em, isEm := r2EmitIdx(c).of(gfn, e.Call); isEm {
+					op := em.op
+					if op == nil && r2EmitIdx(c).isForward(e.Fn) {
+						op, _, _, _, _ = roles.instrOf(gfn, p.ev, j, e.Call.Args[r2EmitIdx(c).forward[e.Fn]])
+					}
+					if op != labelOp {
 						has = true
 					}
 				} else if roles.byObj[e.Fn] != nil && e.Fn != g && mustInsert(e.Fn) {
@@ -682,7 +687,7 @@ func ruleR3RunPreconditions(c *Ctx) []Obligation {
 					}
 					return false
 				}
-				return g == a.addFn || g == roles.insert || g == a.compileFn || (roles.byObj[g] != nil && assignsT(g)) || vmAlwaysPanics(c, g)
+				return g == a.addFn || r2EmitIdx(c).isForward(g) || r2EmitIdx(c).singleOf(g) != nil || g == a.compileFn || (roles.byObj[g] != nil && assignsT(g)) || vmAlwaysPanics(c, g)
 			case *ast.AssignStmt:
 				for _, l := range x.Lhs {
 					if vmFieldOf(info, l) == currFnField {
@@ -845,11 +850,17 @@ func ruleR3RunPreconditions(c *Ctx) []Obligation {
 							continue
 						}
 						switch {
-						case e.Fn == roles.insert:
+						case r2EmitIdx(c).isForward(e.Fn) || r2EmitIdx(c).singleOf(e.Fn) != nil:
 							if !cur {
 								continue
 							}
-							op, _, _, _, _ := roles.instrOf(fn, p.ev, j, e.Call.Args[0])
+							var op *types.Const
+							if em, isEm := r2EmitIdx(c).of(fn, e.Call); isEm {
+								op = em.op
+							}
+							if op == nil && r2EmitIdx(c).isForward(e.Fn) {
+								op, _, _, _, _ = roles.instrOf(fn, p.ev, j, e.Call.Args[r2EmitIdx(c).forward[e.Fn]])
+							}
 							if op != labelOp {
 								sat = fmt.Sprintf("insert @%s", c.Pos(e.Pos))
 							}
@@ -1224,40 +1235,31 @@ func r3emCallOperands(c *Ctx, roles *vmCompilerRoles, a *r3emAnchors) (okk, bad 
 			}
 			var operand ast.Expr
 			what := ""
-			if g == roles.insert && len(call.Args) > 0 {
-				ctor, ok := ast.Unparen(call.Args[0]).(*ast.CallExpr)
-				if !ok {
-					return true
-				}
+			if em, isEm := r2EmitIdx(c).of(fn, call); isEm {
 				isCall := false
-				for _, arg := range ctor.Args {
-					if !types.Identical(info.TypeOf(arg), roles.opType) {
-						continue
-					}
-					if k := ConstOf(info, arg); k != nil {
-						isCall = callOps[k]
-						what = k.Name()
-					} else if ov := vmObjOf(info, arg); ov != nil {
-						ast.Inspect(fn.fd.Body, func(q ast.Node) bool {
-							if as, ok := q.(*ast.AssignStmt); ok {
-								for i, l := range as.Lhs {
-									if vmObjOf(info, l) == ov && i < len(as.Rhs) {
-										if k := ConstOf(info, as.Rhs[i]); k != nil && callOps[k] {
-											isCall = true
-											what = k.Name()
-										}
+				if em.op != nil {
+					isCall = callOps[em.op]
+					what = em.op.Name()
+				} else if ov := vmObjOf(info, em.opExpr); ov != nil && em.opExpr != nil {
+					ast.Inspect(fn.fd.Body, func(q ast.Node) bool {
+						if as, ok := q.(*ast.AssignStmt); ok {
+							for i, l := range as.Lhs {
+								if vmObjOf(info, l) == ov && i < len(as.Rhs) {
+									if k := ConstOf(info, as.Rhs[i]); k != nil && callOps[k] {
+										isCall = true
+										what = k.Name()
 									}
 								}
 							}
-							return true
-						})
-					}
+						}
+						return true
+					})
 				}
 				if !isCall {
 					return true
 				}
-				for _, arg := range ctor.Args {
-					if types.Identical(info.TypeOf(arg), types.Typ[types.String]) {
+				for _, arg := range em.args {
+					if arg != nil && types.Identical(info.TypeOf(arg), types.Typ[types.String]) {
 						operand = arg
 					}
 				}
